@@ -310,6 +310,7 @@ def project_lookup(res, case_spec, scratch_prefix=None):
                 b["n2"] = "nosym" if cc.get("nosym") else ""
                 b["kind"] = "PATH" if (cc.get("op") != "open" or fl & O["PATH"]) else "RDONLY"
                 b["inj"] = bool(cc.get("op") == "open" and fl & O["DIRECTORY"])
+                b["d2"] = 1 if case_spec.get("feat", {}).get("openat2", True) else 0      # backend: 1 = openat2
                 out.append(b)
             elif tag == "END" and cur is not None:
                 en = blank("end", cid)
@@ -319,7 +320,7 @@ def project_lookup(res, case_spec, scratch_prefix=None):
                 en["rid"] = r.get("id") or 0
                 if o[0] == "body":
                     en["body"] = split_body(o[1])
-                en["flag"] = str(o[1]) if o[0] == "err" and str(o[1]).startswith("E") else ""
+                en["flag"] = str(o[1]) if o[0] == "err" and (str(o[1]).startswith("E") or o[1] == "SAFETY") else ""
                 out.append(en)
                 cur = None
             continue
@@ -334,6 +335,9 @@ def project_lookup(res, case_spec, scratch_prefix=None):
         nr = e["nr"]
         if nr == "openat" and e.get("dfd_class") == "tree":
             s.update(nr="openat", d1=e.get("dfd_id", 0), n1=e.get("path", ""), rid=e.get("r_id", 0))
+        elif nr == "openat2" and e.get("dfd_class") == "tree":
+            s.update(nr="openat2", d1=e.get("dfd_id", 0), body=(e.get("path") or "").split("/"), rid=e.get("r_id", 0),
+                     flag=ERRNO.get(-e["ret"], str(-e["ret"])) if e.get("ret", 0) < 0 else "")
         elif nr == "newfstatat" and e.get("dfd_class") == "tree" and e.get("path") == "":
             s.update(nr="fstat", d1=e.get("dfd_id", 0))
         elif nr == "readlinkat" and e.get("dfd_class") == "tree":
@@ -373,7 +377,7 @@ def lookup_conformance(cases, results, max_cases=None, rnd=None):
     """validate many emulated `resolve` traces against Lookup.tla in batched TLC runs; a rejected
     trace (model drift) is recorded with its first unmatched event and skipped"""
     todo = [(c, r) for c, r in zip(cases, results)
-            if not c.get("feat", {}).get("openat2", True) and len(c.get("calls", [])) == 1 and c["calls"][0].get("op") in ("resolve", "open", "readlink")
+            if len(c.get("calls", [])) == 1 and c["calls"][0].get("op") in ("resolve", "open", "readlink") and set(c.get("feat", {})) <= {"openat2"}
             and r.get("status") == "ok" and c.get("procs", 1) == 1]
     if max_cases and len(todo) > max_cases:
         if rnd:
